@@ -7,6 +7,7 @@ CONSTANTS MaxFds = 2
   RejectCtrunc = TRUE
   AbsorbDesc = TRUE
   ValueHandover = TRUE
+  FreshReader = TRUE
   MaxOps = 4
   Lens = {0, 1, 2, 3}
   Vals = {1, 3, 4, 5, 6, 7}
